@@ -865,6 +865,48 @@ class NoProvMidProgram:
         return self.tasks[i].hash
 
 
+class MultiArgProgram:
+    """main -> [one(1), comb(1, 7001 + v, 7002 + v, k=7003 + v)]: `comb` has one argument value that is already
+    recorded and several NEW ones, so that `_record_args` makes several nested `record_value` calls that commit while
+    the CallNode of `comb` is still pending.  Task indices for `edit`: 0 = comb, 1 = one."""
+
+    def __init__(self, ns="gcma"):
+        self.ns = ns
+        self.versions = [1, 1]
+        self.n = 2
+
+    def describe(self):
+        return dict(program="main -> [one(1), comb(1, new, new, k=new)]", versions=list(self.versions))
+
+    def edit(self, i):
+        self.versions[i] += 1
+
+    def expected_main(self):
+        v = self.versions[0]
+        return [1 + self.versions[1], 1 + (7001 + v) + (7002 + v) + (7003 + v)]
+
+    def define(self):
+        from redun import task
+        ns, vc, vo = self.ns, self.versions[0], self.versions[1]
+
+        @task(name="one", namespace=ns, version=str(vo))
+        def one(x):
+            return x + vo
+
+        @task(name="comb", namespace=ns, version=str(vc))
+        def comb(a, b, c, k=0):
+            return a + b + c + k
+
+        @task(name="main_ma", namespace=ns, version="1")
+        def main_ma():
+            return [one(1), comb(1, 7001 + vc, 7002 + vc, k=7003 + vc)]
+        self.tasks = {0: comb, 1: one}
+        return main_ma
+
+    def task_hash(self, i):
+        return self.tasks[i].hash
+
+
 class TagProgram:
     """jobs that carry tags: `leaf` has the task option tags=[("kind","leaf")]; `mid` (shallow) wraps its result in
     apply_tags(value tags, job_tags, execution_tags); the execution itself is started with run(tags=...).
